@@ -38,6 +38,8 @@ var c04Extra = map[string]string{
 	"card.vuego": `<b>[[I:{{ i }}|{{ x }}|{{ outer }}]]</b>`,
 }
 
+type c04H map[string]any
+
 type c04Form struct {
 	name string
 	// tpl: loop markup over collection expression `xs`; prints [[I:<idx>|<item>|<outer>] per instance
@@ -80,6 +82,10 @@ func c04Forms() []c04Form {
 		{"child-bound-same-name", func(v string) string {
 			return `<ul v-for="(i, ` + v + `) in xs"><li :` + v + `="` + v + `" :i="i"><em>[[I:{{ i }}|{{ ` + v + ` }}|{{ outer }}]]</em></li></ul>`
 		}, true},
+		// the loop variables read THROUGH THE EXPRESSION EVALUATOR (its environment is built by EnvMap, not by Lookup)
+		{"expr-reads", func(v string) string {
+			return `<li v-for="(i, ` + v + `) in xs">[[I:{{ i + 0 }}|{{ true ? ` + v + ` : 0 }}|{{ outer }}]]</li>`
+		}, true},
 		{"expr-context", func(v string) string {
 			return `<li v-for="(i, ` + v + `) in xs"><em v-if="` + v + ` == ` + v + `">[[I:{{ i }}|{{ ` + v + ` }}|{{ outer }}]]</em></li>`
 		}, true},
@@ -109,11 +115,19 @@ func c04Eval(coll c04Coll, form c04Form, varName string, withElse bool, rootKind
 		}
 		data = rootT{Xs: m["xs"], Name: outerVal, Outer: "O", Yes: true, Item: outerVal}
 	}
+	if rootKind == "namedmap" {
+		// a string-keyed map that is not literally map[string]any (gin.H and the like): reached through the root-data fallback
+		data = c04H(m)
+	}
 	files := map[string]string{"p.vuego": tpl}
 	for n, src := range c04Extra {
 		files[n] = src
 	}
 	res := renderPage(files, "p.vuego", data)
+	if rootKind == "namedmap" {
+		// the Template API flattens its data into a plain map before rendering (a named map arrives there empty); Vue.Render keeps it as root data
+		res = renderPageVue(files, "p.vuego", data)
+	}
 	// not sent to the model: map iteration order (maps), and interface-typed struct fields holding structs (the Val encoding has no static field type)
 	if coll.name != "maps" && coll.name != "structs" && coll.name != "floats" && !(coll.name == "struct" && rootKind == "struct") {
 		pendingPages = append(pendingPages, pageCase("loop", files, nil, "p.vuego", data, "form:"+form.name))
@@ -187,7 +201,10 @@ func runC04(r *Run, replay *Case) {
 		for _, f := range forms {
 			for _, v := range []string{"x", "item", "name"} {
 				for _, e := range []bool{false, true} {
-					for _, root := range []string{"map", "struct"} {
+					for _, root := range []string{"map", "struct", "namedmap"} {
+						if root == "namedmap" && f.name != "expr-reads" && f.name != "index-item" && f.name != "with-binding" {
+							continue
+						}
 						if (f.name == "include-bound" || f.name == "include-nested" || f.name == "template-vhtml") && !c04PlainItems[cl.name] {
 							continue // these forms print the item through a prop / v-html: only collections whose items print alike everywhere
 						}
